@@ -5,8 +5,9 @@ package main
 // Case line:   <api> <tree in prefix notation>: <op> ; <op> ; ...
 //   api   g = generic constructors (MonadIOJustGenerics / MonadIONewGenerics, T = int)
 //         i = the interface{} methods (MonadIO.Just / MonadIO.New, T = interface{})
-//   tree  J c | V a | N id | W id | H id | G id | JM id x | FR t | FL c t b | FC c t b1 b2 | A x c b | O h t | S h t     (see Model/C11.lean)
-//   ops   r <j> (make object j current; 0 = the value built from the tree) | D <j> <c> <tree> (object j := current.FlatMap(cont c, tree))
+//   tree  J c | V a | N id | W id | H id | HD id | HP id | G id | JM id x | FR t | FL c t b | FC c t b1 b2 | A x c b | O h t | S h t     (see Model/C11.lean)
+//   ops   w (2.1 s pause)
+//         r <j> (make object j current; 0 = the value built from the tree) | D <j> <c> <tree> (object j := current.FlatMap(cont c, tree))
 //         sg (Subscribe with OnNext whose effect is held at the first G leaf it runs) | g- (open the gate)
 //         b (nothing) | e (Eval) | s (Subscribe with OnNext) | z (Subscribe without OnNext) | y (Cor.YieldFromIO)
 //         o<h> (ObserveOn) | u<h> (SubscribeOn)   h: 0 = nil, 1/2 = unbuffered handlers, 3 = handler with a buffered channel
@@ -65,7 +66,7 @@ func c11Parse(toks []string) (*c11Tree, []string, bool) {
 	t := &c11Tree{kind: k}
 	var ok bool
 	switch k {
-	case "J", "V", "N", "W", "H", "G":
+	case "J", "V", "N", "W", "H", "HD", "HP", "G":
 		if t.a, ok = num(); !ok {
 			return nil, nil, false
 		}
@@ -110,7 +111,7 @@ func (t *c11Tree) String() string {
 	rec = func(t *c11Tree) {
 		b.WriteString(t.kind)
 		switch t.kind {
-		case "J", "V", "N", "W", "H", "G", "JM":
+		case "J", "V", "N", "W", "H", "HD", "HP", "G", "JM":
 			fmt.Fprintf(&b, " %d", t.a)
 		case "FL", "FC":
 			fmt.Fprintf(&b, " %d", t.c)
@@ -243,22 +244,48 @@ func c11Build[T any](e *c11Env, api *c11API[T], t *c11Tree, v int) *fpgo.MonadIO
 			e.gate()
 			return api.from(val)
 		})
-	case "H":
+	case "H", "HD", "HP":
 		// network/simpleHTTP.go: the API value is built NOW (no request may be sent), the request goes out when the
-		// MonadIO is evaluated — once per evaluation; the stub transport is the user effect
+		// MonadIO is evaluated — once per evaluation, every evaluation; the stub transport is the user effect.  Like a real
+		// transport it refuses a request whose context is already cancelled or expired.  Value -1 = the API answered with Err.
 		id := t.a
+		method := map[string]string{"H": "GET", "HD": "DELETE", "HP": "POST"}[t.kind]
 		client := &http.Client{Transport: c11RoundTripper(func(req *http.Request) (*http.Response, error) {
+			if err := req.Context().Err(); err != nil {
+				return nil, err
+			}
+			if req.Method != method {
+				return nil, fmt.Errorf("c11: method %s, want %s", req.Method, method)
+			}
+			if req.Body != nil {
+				if b, err := io.ReadAll(req.Body); err != nil || (method == "POST" && !strings.Contains(string(b), strconv.Itoa(id))) {
+					return nil, fmt.Errorf("c11: body %q", b)
+				}
+			}
 			val := e.effect(id, func(n int) int { return (7*id + n) % 1000 })
 			return &http.Response{StatusCode: 200, Status: "200 OK", Proto: "HTTP/1.1", ProtoMajor: 1, ProtoMinor: 1,
 				Header: http.Header{"Content-Type": []string{"application/json"}}, Request: req,
 				Body:   io.NopCloser(strings.NewReader(`{"V":` + strconv.Itoa(val) + `}`))}, nil
 		})}
-		sapi := network.NewSimpleAPIWithSimpleHTTP("http://c11.invalid", network.NewSimpleHTTPWithClientAndInterceptors(client))
-		call := network.APIMakeGet[c11Resp](sapi, "/v/{id}")(network.PathParam{"id": id}, &c11Resp{})
+		shttp := network.NewSimpleHTTPWithClientAndInterceptors(client)
+		shttp.TimeoutMillisecond = int64(2 * time.Second) // (the field is used as a time.Duration)
+		sapi := network.NewSimpleAPIWithSimpleHTTP("http://c11.invalid", shttp)
+		var call *fpgo.MonadIODef[*network.APIResponse[c11Resp]]
+		switch t.kind {
+		case "H":
+			call = network.APIMakeGet[c11Resp](sapi, "/v/{id}")(network.PathParam{"id": id}, &c11Resp{})
+		case "HD":
+			call = network.APIMakeDelete[c11Resp](sapi, "/v/{id}")(network.PathParam{"id": id}, &c11Resp{})
+		default:
+			call = network.APIMakePostJSONBody[c11Resp, c11Resp](sapi, "/v/{id}")(network.PathParam{"id": id}, c11Resp{V: id}, &c11Resp{})
+		}
 		return api.newf(func() T {
 			r := call.Eval()
-			if r == nil || r.Err != nil || r.TargetObject == nil {
+			if r == nil || r.Err != nil {
 				return api.from(-1)
+			}
+			if r.TargetObject == nil {
+				return api.from(-2)
 			}
 			return api.from(r.TargetObject.V)
 		})
@@ -403,6 +430,9 @@ func c11RunCase[T any](api *c11API[T], t *c11Tree, ops []string, allowSame bool)
 				}
 				return flush()
 			case op == "b":
+				return flush()
+			case op == "w":
+				time.Sleep(2100 * time.Millisecond) // longer than the API timeout: a deadline must not run between evaluations
 				return flush()
 			case op == "e":
 				v := api.to(m.Eval())
@@ -768,6 +798,21 @@ func c11Gen(tier string, rng *rand.Rand, emit func(string)) map[string]interface
 		emit(api(count) + t.String() + ": " + script)
 		count++
 	}
+	// SimpleAPI calls (GET, DELETE, POST with body) as MonadIO: evaluated several times, routed, and across a pause longer than the timeout
+	httpCases := 0
+	for _, k := range []string{"H", "HD", "HP"} {
+		lf := c11Leaf(k, 3+httpCases%5)
+		for _, t := range []*c11Tree{lf, {kind: "FL", c: 1, kids: []*c11Tree{lf, c11Leaf("V", 1)}},
+			{kind: "FL", c: 2, kids: []*c11Tree{c11Leaf("N", 1), lf}}, {kind: "FR", kids: []*c11Tree{lf}}} {
+			for _, sc := range []string{"e ; e ; e", "s ; s ; e", "o1 ; u2 ; s ; s", "e ; y ; s", "b ; e ; z ; e"} {
+				put(t, sc)
+				httpCases++
+			}
+		}
+	}
+	put(c11Leaf("H", 2), "e ; w ; e")
+	put(c11Leaf("HD", 2), "w ; e ; e")
+	httpCases += 2
 	// values that are themselves MonadIO objects (interface{} constructors): Just(obj) yields the object, runs nothing of it;
 	// a continuation receives the object; ObserveOn on Just(obj) configures the new value, not obj
 	monadValued := 0
@@ -964,7 +1009,7 @@ func c11Gen(tier string, rng *rand.Rand, emit func(string)) map[string]interface
 		"exhaustive": false, "directed_law_cases": directed,
 		"exhaustive_scope": fmt.Sprintf("all trees with <= %d nodes over {J3,V1,N1,N2,W3,H4,FR,FL,FC,A,O1,S2} x %d scripts", maxNodes, len(c11Scripts)),
 		"exhaustive_cases": exhaustive, "random_cases": nRandom, "random_max_depth": depth, "random_depth_hist": depthHist,
-		"monad_valued_cases": monadValued, "dag_cases": dag, "dag_max_chain_depth": maxChain, "gated_cases": gated, "emitted": count,
+		"http_cases": httpCases, "monad_valued_cases": monadValued, "dag_cases": dag, "dag_max_chain_depth": maxChain, "gated_cases": gated, "emitted": count,
 	}
 }
 
